@@ -679,3 +679,25 @@ func Stmt() {
 		Point(OpStmt, 0, nil)
 	}
 }
+
+// TableKey is a canonical summary of what every other goroutine is waiting for: the sorted
+// multiset of (operation kind, enabled) pairs, without names or object ids.
+func TableKey() string {
+	s := S
+	if s == nil {
+		return ""
+	}
+	var parts []string
+	for _, g := range s.gs {
+		if g.done || g == s.cur {
+			continue
+		}
+		en := "b"
+		if s.enabled(g) {
+			en = "r"
+		}
+		parts = append(parts, g.pend.kind.String()+en)
+	}
+	sort.Strings(parts)
+	return strings.Join(parts, ",")
+}
